@@ -374,9 +374,9 @@ func c06Run(c c06Case) (res c06Result) {
 			}
 		}
 		if isolated {
-			if !waitIdle(10 * time.Second) {
+			if !waitIdle(60 * time.Second) {
 				if res.inconcl == "" {
-					res.inconcl = "node did not go idle before an isolated fork within 10s"
+					res.inconcl = "node did not go idle before an isolated fork within 60s"
 				}
 				return
 			}
@@ -445,14 +445,14 @@ func c06Run(c c06Case) (res c06Result) {
 			// again; a missing rewind is only reported if it stays missing for 3 s of idleness
 			var evs []uint64
 			missingSince := time.Time{}
-			dl := time.Now().Add(15 * time.Second)
+			dl := time.Now().Add(90 * time.Second)
 			for {
 				mu.Lock()
 				sinceLog, sweeps = 0, 0
 				mu.Unlock()
-				if !waitIdle(10 * time.Second) {
+				if !waitIdle(60 * time.Second) {
 					if res.inconcl == "" {
-						res.inconcl = "node did not go idle after an isolated fork within 10s"
+						res.inconcl = "node did not go idle after an isolated fork within 60s"
 					}
 					return
 				}
@@ -528,7 +528,7 @@ func c06Run(c c06Case) (res c06Result) {
 	}
 	setPtrs()
 	// the chain stops changing: (1) convergence
-	deadline := time.Now().Add(20 * time.Second)
+	deadline := time.Now().Add(120 * time.Second)
 	var diff string
 	var idleSince time.Time
 	for {
@@ -551,7 +551,7 @@ func c06Run(c c06Case) (res c06Result) {
 			idleSince = time.Time{}
 		}
 		if time.Now().After(deadline) {
-			res.inconcl = "node did not become idle within 20s after the last fork"
+			res.inconcl = "node did not become idle within 120s after the last fork"
 			return
 		}
 		time.Sleep(500 * time.Microsecond)
